@@ -218,6 +218,8 @@ type interpreter struct {
 	powPoints       [][3]*Term
 	opaqueStrings   int
 	prints          int
+	stdout          strings.Builder // what the code under test printed on this path
+	stdoutOpaque    int
 	lastCaught      string
 	lastCaughtSite  string
 }
@@ -231,6 +233,7 @@ func (i *interpreter) resetPath(prefix []int) {
 	i.pc = i.pc[:0]
 	i.steps = 0
 	i.depth = 0
+	i.stdout.Reset()
 	i.accessCount = 0
 	i.allocs = 0
 	i.nondets = nil
